@@ -383,6 +383,8 @@ func (c *Ctx) c05SceneCase(o c05Opts, holds string) {
 			}
 		}
 		c.Emit(holds, scene+" "+strings.TrimPrefix(rans, "ok "), "true")
+		// what the code does exactly (obj_roundtrip_carry): holds for every well-formed scene
+		c.Emit("c05.holds.roundtrip_carry", scene+" "+strings.TrimPrefix(rans, "ok "), "true")
 	}
 	// load → save → load: no face lost or invented
 	sans, text2 := c05Resave(gs)
